@@ -610,7 +610,7 @@ func c20RunScenario(c *core.Ctx, sc c20Scenario, bound int, maxExec int64) core.
 	}
 	// wall budget per scenario (a tree whose library starts goroutines of its own has far
 	// more schedules): bounds completed within it are reported, the run stays green
-	budget := 25 * time.Second
+	budget := 40 * time.Second
 	if c.Thorough() {
 		budget = 12 * time.Minute
 	}
